@@ -44,7 +44,7 @@ ASSUMPTIONS = [
     "NLDrude_Fermider2 (f'' form) needs about twice the linear grid density of the other forms; quick runs it on the 2D "
     "zoo models at 2400 K only, thorough adds 3D",
     "k.p models of the design are not included (box-boundary terms need a separate treatment)",
-    "Fermi-level step kT/5, smoother cut-off maxdE=12 kT, window padded by 12.5 kT on both sides",
+    "Fermi-level step kT/10 (kT/5 leaves a 1-2 % binning error in the third-order tensors), smoother cut-off maxdE=8 kT, window padded by 8.5 kT on both sides",
 ]
 
 TOL = 0.05
@@ -224,8 +224,8 @@ def run_case(case, seed):
             return {"ok": True, "nontrivial": False,
                     "obs": {"skipped": f"premise: bands {j},{j + 1} approach to {dgap[:, j].min():.3f} < {GAP_MIN}"}}
     kT = bh.KB_EV * T
-    dE = kT / 5
-    maxdE = 12
+    dE = kT / 10
+    maxdE = 8
     W = Emax - Emin
     lo, hi = Emin + 0.05 * W, Emax - 0.05 * W
     pad = (maxdE + 0.5) * kT
